@@ -16,6 +16,7 @@ from . import ir as IR
 def explore(jobs, procs=4, workers=4, timeout=1200):
     """-> ({job id: [behaviours]}, stats).  A behaviour = TLC's terminal record (status, values, calls...)."""
     tmp = tlc.scratch_dir("steps-")
+    jobs = [dict(j, badopt=bool(j.get("badopt", False))) for j in jobs]
     shards = [s for s in (jobs[i::procs] for i in range(procs)) if s]
     try:
         def one(k):
@@ -46,6 +47,8 @@ def scripted_job(job, beh):
     for c in beh["calls"]:
         if c["frame"] == "" and list(c["dec"]) != ["~nodec"]:
             decs.setdefault(c["node"], []).append(list(c["dec"]) or [IR.NONE])
+    if beh["status"] == "failed" and beh["err"]["kind"] == "decision" and "/" not in beh["err"]["path"]:
+        decs.setdefault(beh["err"]["path"], []).append(["~bad"])      # the gate's last invocation returned an invalid target
     for n in j["prog"]["nodes"]:
         if n["kind"] in ("route", "ifelse"):
             n["script"] = decs.get(n["name"], []) + n["script"][-1:]
@@ -71,6 +74,10 @@ def replay_explored(ctx, jobs, behs, extra=None):
             n += 1
             ctx.count()
             ctx.traces()
+            if b["err"]["kind"] == "decision":
+                ctx.bump("explored_invalid_gate_decisions")
+            elif b["status"] == "failed" and b["err"]["kind"] == "body":
+                ctx.bump("explored_injected_failures")
             sj = scripted_job(j, b)
             sj = {k: v for k, v in sj.items() if not k.startswith("_")}
             o, _, _ = predict.try_real(sj)
